@@ -23,3 +23,18 @@ claim("C09",
  "Trusted: as C01.",
  "static analysis: cursor tracking (off0+c+K) in the arm interpreter; product synchrony with the reference for 'first dead byte'; dominance rules on reader loops",
  "DESIGN.md §3 Engine A, §4 C09")
+claim("C04",
+ "Static decision of structural clauses of 'writers emit valid JSON': string escaping is total and exact per byte against RFC 8259 section 7 for both HTML-safe settings (the loop body of ojg.AppendJSONString is interpreted with the byte concrete and the escape table as a constant: 512 cells, exhaustive), plus the further writer rules listed in the evidence. Parse-back equality, number formatting and pretty layout are not decided.",
+ "Trusted: go/types constant evaluation, the interpreter's reading of the loop body, utf8.DecodeRuneInString for bytes >= 0x80 (the UTF-8 arm is only required to have a U+FFFD path).",
+ "static analysis: per-byte abstract interpretation of the escaping loop against an RFC 8259 section 7 specification table",
+ "DESIGN.md §3 Engine G, §4 C04")
+claim("C08",
+ "Static decision of the ownership and locking shape that concurrent use relies on: no use of a pooled object after Put (SSA reachability), no package-level function returns memory owned by a pooled or caller-supplied Writer (SSA ownership propagation through field loads, reslices, phi and owning methods), package-level maps are immutable after init / written only by their registration API / accessed under the package mutex (lockset over the intra-package call graph). A necessary condition of race freedom, not race freedom.",
+ "Trusted: go/ssa construction; ownership is tracked within a function plus method summaries (no general pointer analysis is available); registration APIs (jp.Register*Function, asm.Define) are configuration outside the concurrent call set.",
+ "static analysis: SSA ownership/escape propagation, use-after-Put reachability, lockset with lock-held-on-entry fixpoint",
+ "DESIGN.md §3 Engine D, §4 C08")
+claim("C10",
+ "Static decision of writer/reader table agreement for SEN strings: for each byte and HTML-safe setting the quoting/escaping decision of ojg.AppendSENString (loop body interpreted with the byte concrete) is compared with the SEN reader's start, token, string, escape and decode tables, whose roles are identified from the sen.Parser dispatch loop; reserved spellings must be compared against by the writer. Whole-tree equality, numbers and time options are not decided.",
+ "Trusted: as C04. Known findings ('+', '-' first bytes and null/true/false written bare; pinned by the unedited test suite) are listed in KNOWN_FINDINGS.txt.",
+ "static analysis: per-byte abstract interpretation of the writer vs constant reader tables (table agreement)",
+ "DESIGN.md §3 Engine G, §4 C10")
